@@ -244,8 +244,26 @@ def C19(run):
     lintjob(run, 'lint', 'lint')
 
 
+def grammar(run, fam, family='syntax', profiles=('debug',)):
+    tlc_replay(run, 'grammar-' + fam, 'MC_Grammar.tla', 'MC_Grammar_%s_%s.cfg' % (fam, run.tier), family, profiles=profiles, xss='256m')
+
+
+def C02(run):
+    run.rule = ('Grammar.tla renders a syntax tree under a choice tape (keyword alias x letter case, worded/symbolic operators, put/let, '
+                'separators, optional words and word orders, name spelling per mention, literal aliases, numeral spellings, noise between '
+                'tokens incl. comments / multi-line comments / non-ASCII blanks, line-end decoration); for every tree of the families expr '
+                '(all operator pairs in both nestings, unary mixes, list operands, primaries), stmt (all 18 statement kinds with every optional '
+                'part) and block (nesting, empty blocks, if/else-closes-function) TLC enumerates the canonical rendering, every single '
+                'deviation from it, and pseudo-random full tapes; the real parser must return exactly the tree (positions erased; numbers by '
+                'value). The expressibility rules are an ASSUME checked on the family.')
+    run.assumptions += ['"every spelling" = the choice points of Grammar.tla (grown from the alias table and the parser\'s optional-token sites)']
+    for fam in ('expr', 'stmt', 'block'):
+        grammar(run, fam)
+
+
 PROPS = {
     'C01': (C01, 'model_checking'),
+    'C02': (C02, 'model_checking'),
     'C03': (C03, 'model_checking'),
     'C06': (C06, 'model_checking'),
     'C04': (C04, 'model_checking'),
